@@ -632,6 +632,14 @@ func (e *Exec) concat(st *State, a, b *Term) *Term {
 		return a
 	}
 	r := mkApp("concat", SStr, a, b)
+	if la, ok := e.litOf(a); ok && len(la) <= 16 && st.quiet == 0 {
+		for i := 0; i < len(la); i++ {
+			st.assume(mkEq(strByte(r, mkInt64(int64(i))), mkInt64(int64(la[i]))))
+		}
+	}
+	if st.quiet > 0 {
+		return r
+	}
 	st.assume(mkEq(strLen(r), mkAdd(strLen(a), strLen(b))))
 	st.assume(mkGe(strLen(a), tZero))
 	st.assume(mkGe(strLen(b), tZero))
@@ -737,6 +745,17 @@ func (e *Exec) bitop(st *State, op string, x, y *Term, rt types.Type) *Term {
 			x, y = y, x
 		}
 		if y.isInt() && y.Val.Sign() >= 0 {
+			// a constant with few bits: sum of its bits of x (floor div / mod give two's-complement bits)
+			if pc := popcount(y.Val); pc > 0 && pc <= 8 && new(big.Int).And(new(big.Int).Add(y.Val, big.NewInt(1)), y.Val).Sign() != 0 {
+				var sum *Term = tZero
+				for b := 0; b < y.Val.BitLen(); b++ {
+					if y.Val.Bit(b) == 1 {
+						p2 := mkBig(new(big.Int).Lsh(big.NewInt(1), uint(b)))
+						sum = mkAdd(sum, mkMul(mkEMod(mkEDiv(x, p2), mkInt64(2)), p2))
+					}
+				}
+				return sum
+			}
 			// mask 2^k - 1
 			m := new(big.Int).Add(y.Val, big.NewInt(1))
 			if new(big.Int).And(m, y.Val).Sign() == 0 {
@@ -1216,4 +1235,14 @@ func (e *Exec) assumeTypeInv(st *State, v Value) {
 		env := &SpecEnv{e: e, st: st, old: st, vars: map[string]Value{"this": v}, pkg: named.Obj().Pkg(), what: "typeinv " + named.Obj().Name()}
 		st.assume(mkImplies(mkNe(s.T, tZero), env.evalBool(inv)))
 	}
+}
+
+func popcount(v *big.Int) int {
+	n := 0
+	for b := 0; b < v.BitLen(); b++ {
+		if v.Bit(b) == 1 {
+			n++
+		}
+	}
+	return n
 }
